@@ -1,7 +1,10 @@
 // Package c20 holds positive controls for the C20 rules: code that must be reported (and code that must not) on every run.
 package c20
 
-import "strings"
+import (
+	"bytes"
+	"strings"
+)
 
 type Scanner struct {
 	input      []byte
@@ -78,4 +81,35 @@ func joinBuilder(parts []string) string {
 		sb.WriteString(p)
 	}
 	return sb.String()
+}
+
+type Position struct{ Index int }
+
+func (p *Position) AdvanceN(n int) { p.Index += n }
+
+var errNoQuote = errNew("no closing quote")
+
+type strErr string
+
+func (e strErr) Error() string { return string(e) }
+func errNew(s string) error    { return strErr(s) }
+
+// peekQuote searches the rest of the input and may return without having moved the cursor.
+func (s *Scanner) peekQuote(pos *Position) bool {
+	end := bytes.IndexByte(s.input[pos.Index:], '\'')
+	if end < 0 {
+		return false
+	}
+	pos.AdvanceN(end)
+	return true
+}
+
+// skipToQuote moves to what it found, or fails.
+func (s *Scanner) skipToQuote(pos *Position) error {
+	end := bytes.IndexByte(s.input[pos.Index:], '\'')
+	if end < 0 {
+		return errNoQuote
+	}
+	pos.AdvanceN(end)
+	return nil
 }
